@@ -45,6 +45,17 @@ func genC11(t *rapid.T) C11Case {
 			c.X.E = int64(rapid.IntRange(-100, 100).Draw(t, "hugee3"))
 		}
 	}
+	if h.Rare(t, "gigalit", 25000) {
+		// a few per run: 2^14 and 2^15 words and a little more (three to six hundred thousand digits), where a
+		// conversion that splits its work by size would start to do so
+		n := rapid.SampledFrom([]int{1 << 14, 1<<14 + 1, 1<<14 + 600, 1 << 15, 1<<15 + 3}).Draw(t, "gigan")*h.DW + rapid.IntRange(-19, 19).Draw(t, "gigaoff")
+		c.X = h.Spec{F: "f", D: h.GenDigitsN(t, "gigad", n), Neg: rapid.Bool().Draw(t, "giganeg"), M: h.GenMode(t, "gigam"), E: int64(rapid.IntRange(-100, 100).Draw(t, "gigae"))}
+		c.X.P = uint(len(c.X.D))
+		c.Fmt = rapid.SampledFrom([]string{"e", "g", "f", "p", "text", "json", "b"}).Draw(t, "gigafmt")
+		c.Base = rapid.SampledFrom([]int{0, 10}).Draw(t, "base")
+		c.RP = uint(rapid.SampledFrom([]int{0, 0, 1, 19}).Draw(t, "rp"))
+		return c
+	}
 	if c.X.F == "f" {
 		if c.Fmt == "f" {
 			c.X.E = h.GenExpModerate(t, "xe", 5000)
@@ -167,7 +178,7 @@ func checkC11(c C11Case, o *h.Obs) *h.Fail {
 	return nil
 }
 
-const ruleC11 = "rapid-generated Decimals (clean and dirty zeros/infinities, 1..3000 (quick) / 20000 (thorough) digits, word patterns with interior and trailing zero words, extra precision so that whole low words are zero, about one case in 150 with 9700..19500 digits, exponents over the whole int32 range for e/E/g/G/p/b/MarshalText/JSON and |exp| <= 5000 for f) x format x parse base {0,10} x receiver mode x receiver precision MinPrec..MinPrec+100. Oracle: round trip (form, sign, digits, exponent identical, Acc()==Exact, Append==Text, a second parse of the same text into the same, now roomy, receiver gives the same value) and the digit-count clause (significand characters without layout zeros == x's MinPrec digits). Non-trivial = finite with more than one word, or containing a zero word, or exponent within 60 of a range end."
+const ruleC11 = "rapid-generated Decimals (clean and dirty zeros/infinities, 1..3000 (quick) / 20000 (thorough) digits, word patterns with interior and trailing zero words, extra precision so that whole low words are zero, about one case in 150 with 9700..19500 digits, exponents over the whole int32 range for e/E/g/G/p/b/MarshalText/JSON and |exp| <= 5000 for f) x format x parse base {0,10} x receiver mode x receiver precision MinPrec..MinPrec+100. Oracle: round trip (form, sign, digits, exponent identical, Acc()==Exact, Append==Text, a second parse of the same text into the same, now roomy, receiver gives the same value) and the digit-count clause (significand characters without layout zeros == x's MinPrec digits). About one case in 25000 (a handful per run) is a value of 2^14 or 2^15 words and a little more (311 000 .. 623 000 digits) printed and parsed back in every format. Non-trivial = finite with more than one word, or containing a zero word, or exponent within 60 of a range end."
 
 var propC11 = &h.Prop[C11Case]{ID: "C11", Rule: ruleC11, Gen: genC11, Check: checkC11, Matchers: map[string]func(C11Case) bool{}}
 
